@@ -291,10 +291,17 @@ class Inliner:
         if not isinstance(fn, ast.Name):
             return None
         g = func.nested.get(fn.id)
+        scope_node = func.node
+        if g is None and func.parent is not None and not isinstance(func.node, ast.Lambda):
+            # a SIBLING local function (defined next to ``func`` in the enclosing function, used only through calls): the callback split in two
+            g = func.parent.nested.get(fn.id)
+            scope_node = func.parent.node
+            if g is func:
+                g = None
         if g is None or isinstance(g.node, ast.Lambda) or g.node.decorator_list or g.is_async != func.is_async and g.is_async:
             return None
-        called = {id(c.func) for c in ast.walk(func.node) if isinstance(c, ast.Call)}
-        for n in ast.walk(func.node):
+        called = {id(c.func) for c in ast.walk(scope_node) if isinstance(c, ast.Call)}
+        for n in ast.walk(scope_node):
             if isinstance(n, ast.Name) and n.id == fn.id and isinstance(n.ctx, ast.Load) and id(n) not in called:
                 return None   # escapes as a value: a callback, not a block
         if any(isinstance(n, ast.Name) and n.id == fn.id for n in ast.walk(g.node)):
@@ -665,7 +672,7 @@ class Inliner:
                 if nm.startswith('_') and not (nm.startswith('__') and nm.endswith('__')) and nm not in ANCHORS:
                     cand = True
                     break
-                if isinstance(n.func, ast.Name) and nm in func.nested:
+                if isinstance(n.func, ast.Name) and (nm in func.nested or (func.parent is not None and nm in func.parent.nested)):
                     cand = True
                     break
         # ... and no conditional expression as the whole value of an assignment / return (lowered to if/else in the view)
